@@ -7,7 +7,7 @@ HOOKS = {
     "add_only": True,
 }
 ENGINES = [
-    {"name": "pyvc", "path": "pyvc/", "serves_properties": ["C12"], "kind_free_text": "verification-condition generator: symbolic execution of the real ast.FunctionDef nodes of /repo against sidecar functional contracts, SMT-LIB2 obligations discharged by z3 (cvc5 fallback / cross-check)"},
+    {"name": "pyvc", "path": "pyvc/", "serves_properties": ["C12", "C20"], "kind_free_text": "verification-condition generator: symbolic execution of the real ast.FunctionDef nodes of /repo against sidecar functional contracts, SMT-LIB2 obligations discharged by z3 (cvc5 fallback / cross-check)"},
     {"name": "tables", "path": "oracle/", "serves_properties": ["C12"], "kind_free_text": "exhaustive evaluation of finite table obligations (live classes vs generator/lsp.json through an independent metamodel oracle)"},
 ]
 NOTES = "bin/check <ID>: exit 0 held, 1 violation (VIOLATION line + replay file), 2 undecided (solver unknown), 3 checker/assumption broken. See DESIGN.md."
@@ -19,5 +19,12 @@ CHECKS = {
         "text": "integer_validator/uinteger_validator are proved against the statement's ranges for every Python value (symbolic execution of the real source, z3); the attachment of the right validator to every integer-typed attribute is evaluated exhaustively against the metamodel; the two entry points are probed on the boundary set at every site (bounded, not counted as proved).",
         "note": "trusted: z3/cvc5, the pyvc encoder (DESIGN 2.2-2.3), CPython int/bool semantics, the cattrs int()+constructor row (probed per site). A function that leaves the verified subset is decided by a bounded native grid, labelled as such in the evidence.",
         "design_ref": "DESIGN.md 5/C12",
+    },
+    "C20": {
+        "level": "proof",
+        "technique": "contract-based deductive verification: lemma programs over the six operators / repr executed symbolically through the real dunder methods (types.py + functools helpers), SMT-discharged for all ints",
+        "text": "46 lemmas (six operators on Position pairs, Range/Location ==/!=, reprs, comparisons with unrelated objects) are proved for all uinteger fields and all strings by symbolic execution of the real method bodies found in the live class __dict__ under the CPython operator-dispatch rules; z3 discharges every path obligation.",
+        "note": "trusted: z3/cvc5, pyvc's model of CPython rich-comparison dispatch and tuple comparison, inspect.getsource for the functools helpers; type invariant of the fields is a precondition. Methods that leave the subset fall back to a bounded native grid (labelled).",
+        "design_ref": "DESIGN.md 5/C20",
     },
 }
